@@ -21,6 +21,7 @@ RULE = (
     'mask; oracle = numpy x[idx], np.add.at scatter, S S^T / S^T S of the numpy selection matrix. '
     'non-trivial = integer array with a negative or repeated entry, or an ellipsis followed by >=1 '
     'entry, or >=2 leaves; distinct = distinct canonical recipe JSON.'
+    ' Also: structured index values (contiguous range, range with one element repeated and one skipped, sorted, constant); long index arrays (300-9000 entries into 3-3000 pixels, every integer dtype able to hold the pixel numbers, negative entries for signed ones, one hot pixel) judged by gather, np.add.at and bincount: mv, transpose, (P.T@P).reduce() == diag(hit counts), (P@P.T).reduce().'
 )
 ASSUMPTIONS = [
     'index values are in bounds (furax documents numpy semantics only there; JAX clamps silently)',
